@@ -58,6 +58,19 @@ def _params_digest(params):
     return _hash(walk(params))
 
 
+def _functions_digest(functions) -> dict:
+    """The caller's function collection: which objects it holds and every attribute those function objects carry."""
+    items = functions.items() if isinstance(functions, dict) else enumerate(functions)
+    out = {}
+    for k, f in items:
+        try:
+            attrs = sorted((a, _state_repr(v)[:200]) for a, v in vars(f).items())
+        except TypeError:
+            attrs = []
+        out[str(k)] = _hash([id(f), attrs])
+    return out
+
+
 def _frame_digest(df):
     return _hash({c: [repr(x) for x in df[c].tolist()] + [str(df[c].dtype)] for c in df.columns})
 
@@ -90,11 +103,30 @@ def exec_op(op: dict, keep: dict | None = None) -> str:
                 data["alter"] = data["alter"].astype(float)
             before = {k: id(v) for k, v in data.items()} if isinstance(data, dict) else None
             snap = _params_digest(params)
+            fsnap = _functions_digest(functions)
             res = compute_taxes_and_transfers(data=data, params=params, functions=functions,
                                               targets=op.get("targets"), rounding=op.get("rounding", True))
             if keep is not None:
                 keep["data_mutated"] = before is not None and before != {k: id(v) for k, v in data.items()}
                 keep["params_mutated"] = snap != _params_digest(params)
+                after = _functions_digest(functions)
+                if after != fsnap:
+                    keep["functions_mutated"] = sorted(k for k in set(after) | set(fsnap) if after.get(k) != fsnap.get(k))[:5]
+            return _frame_digest(res)
+        if op["op"] == "reform_wrapper":
+            # a reform written as a decorator-style wrapper around the function the environment hands out
+            import functools
+            params, functions = set_up_policy_environment(op["date"])
+            df, _ = popgen.population(random.Random(op["seed"]), op["date"], n_clusters=2)
+            name = op["rule"] if op["rule"] in functions else "kindergeld_m"
+            orig = functions[name]
+
+            @functools.wraps(orig)
+            def wrapper(*a, **k):
+                return orig(*a, **k) * 2.0
+
+            res = compute_taxes_and_transfers(data=df, params=params, functions={**functions, name: wrapper},
+                                              targets=[name], rounding=False)
             return _frame_digest(res)
         if op["op"] == "reform_aggspec":
             # a reform that re-defines a built-in aggregate through the documented aggregation-spec arguments
@@ -189,7 +221,12 @@ def process_state() -> dict:
         m = sys.modules.get(e["module"])
         if m is None:
             continue
-        mods[f"{e['module']}.{e['fname']}"] = id(getattr(m, e["fname"], None))
+        fobj = getattr(m, e["fname"], None)
+        try:
+            attrs = sorted((a, _state_repr(v)[:120]) for a, v in vars(fobj).items())
+        except TypeError:
+            attrs = []
+        mods[f"{e['module']}.{e['fname']}"] = _hash([id(fobj), attrs])
         injected[e["module"]] = sorted(k for k in vars(m) if k in ("numpy", "jax", "jax.numpy"))
     containers = {}
     for name, m in sorted(sys.modules.items()):
@@ -237,6 +274,9 @@ def random_history(rnd, length):
                       "int_as_float": rnd.random() < 0.3})
         elif k < 0.7:
             h.append({"op": "reform", "date": d, "seed": rnd.randint(0, 50), "targets": ["kindergeld_m", "sozialv_beitr_arbeitnehmer_m"]})
+        elif k < 0.74:
+            h.append({"op": "reform_wrapper", "date": d, "seed": rnd.randint(0, 50),
+                      "rule": rnd.choice(["kindergeld_m", "elterngeld_m", "arbeitsl_geld_m", "eink_st_y_sn", "wohngeld_m_wthh"])})
         elif k < 0.78:
             h.append({"op": "reform_inplace", "date": d, "seed": rnd.randint(0, 50)})
         elif k < 0.86:
@@ -273,7 +313,8 @@ def run(tier: str) -> int:
                           "pid_key": "kindergeld_anz_ansprüche"},
                          {"op": "setup", "date": d0},
                          {"op": "simulate", "date": d0, "seed": rnd.randint(0, 50), "targets": None, "rounding": True,
-                          "as_dict": False, "int_as_float": False}] + h[2:]
+                          "as_dict": False, "int_as_float": False},
+                         {"op": "reform_wrapper", "date": d0, "seed": rnd.randint(0, 50), "rule": "kindergeld_m"}] + h[2:]
             futures = [pool.submit(fresh, op) for op in h]
             s0 = process_state()
             prefix = []
@@ -303,6 +344,10 @@ def run(tier: str) -> int:
                 if keep.get("data_mutated"):
                     r.hit({"kind": "caller-data-mutated", "op": op["op"]},
                           "the dict of Series passed as data was modified by the call", {"history": prefix})
+                if keep.get("functions_mutated"):
+                    r.hit({"kind": "caller-functions-mutated", "op": op["op"]},
+                          f"function objects of the collection passed by the caller were modified by the call (new / changed "
+                          f"attributes): {keep['functions_mutated']}", {"history": prefix})
                 if keep.get("params_mutated"):
                     r.hit({"kind": "caller-params-mutated", "op": op["op"]},
                           "the params dictionary passed by the caller was modified by the call", {"history": prefix})
